@@ -32,7 +32,7 @@ META = {
     "block shapes / overview counts found in the written files.",
     "note": "The Lean part is small (decision core only).  GDAL + rasterio encode AND decode are trusted entirely: "
     "the claim 'an independent reader decodes the same image' rests on the round trip, not on a theorem.  The "
-    "ambiguous n x n x n layout is reported as ambiguous (always read as band-last), not judged.",
+    "ambiguous n x n x n layout is reported as ambiguous (always read as band-last), not judged. Not yet mirrored in the Lean model (inventory of the anchor files): the two-pass GDAL write itself (_write: windowed vs one-shot, MemoryFile temp, build_overviews, rio_copy with copy_src_overviews), _memfiles_ovr / the .ovr side-car chain of write_cog_layers, the GDAL Env options set around the copy (GDAL_TIFF_OVR_BLOCKSIZE, GDAL_DISABLE_READDIR_ON_OPEN, NUM_THREADS), resampling_s2rio, the extra_rio_opts pass-through other than nodata, xr_coords / _mk_crs_coord of _xr_interop.py (how the GeoBox and CRS are attached to the DataArray: judged by the full-CRS and source-affine read-back oracles; K22), tmp_opts = _without(rio_opts, compress, predictor, zlevel).",
     "technique": "Lean 4 proof over hand model of the decision core + differential correspondence + GDAL round trip",
     "design_ref": "DESIGN.md §4 C15",
 }
@@ -364,6 +364,31 @@ def spell(v, kind: str, dt):
         return v
 
 
+def num_s(v) -> str:
+    """a (spelled) number for the driver: N | nan | npnan:<dtype> | i:<int> | f:<rat> | np:<dtype>:<rat> | a0:<dtype>:<rat>"""
+    if v is None:
+        return "N"
+    if isinstance(v, np.ndarray):
+        return f"npnan:{v.dtype}" if v.dtype.kind == "f" and math.isnan(float(v)) else f"a0:{v.dtype}:{frac_s(float(v) if v.dtype.kind == 'f' else int(v))}"
+    if isinstance(v, np.generic):
+        if v.dtype.kind == "f" and math.isnan(float(v)):
+            return f"npnan:{v.dtype}"
+        return f"np:{v.dtype}:{frac_s(float(v) if v.dtype.kind == 'f' else int(v))}"
+    if isinstance(v, float):
+        return "nan" if math.isnan(v) else f"f:{frac_s(v)}"
+    return f"i:{int(v)}"
+
+
+def geotags_s(tags) -> str:
+    """33550 / 33922 / 34264 of a tifffile page as the driver prints them"""
+    out = []
+    for code in (33550, 33922, 34264):
+        t = tags.get(code)
+        if t is not None:
+            out.append(f"{code}=" + list_s([frac_s(float(x)) for x in t.value]))
+    return " ".join(out)
+
+
 def snapshot(obj):
     """structural fingerprint of a caller-owned argument (dicts / lists, nested; array-likes by identity)"""
     if isinstance(obj, dict):
@@ -569,6 +594,15 @@ def one_case(cfg, workdir, tag, shared=None):
             pred = f.tags(ns="IMAGE_STRUCTURE").get("PREDICTOR", "1")
             facts["opts_line"] = f"c15 opts {opt_s(cfg['blocksize'])} {w} {h} {bool_s(is_float)}"
             facts["opts"] = f"{bx} {by} {pred} {bool_s(warned)}"
+            # nodata as resolved by the writer vs the model's resolution order (spellings as actually passed)
+            m_entry = "write_cog_layers" if entry == "write_cog_layers" else ("write_cog_ovrs" if ovr_mode == "supplied" else
+                                                                            ("to_cog" if entry in ("to_cog", "acc_to_cog") else "write_cog"))
+            facts["nodata_line"] = f"c15 nodata {m_entry} {num_s(kw.get('nodata'))} {num_s(xx.attrs.get('nodata'))}"
+            facts["nodata"] = "N" if f.nodata is None else ("nan" if math.isnan(f.nodata) else frac_s(float(f.nodata)))
+            if all(abs(v) < 2.0**40 and float(v).as_integer_ratio()[1] <= 2**30 for v in tuple(gbox.transform)[:6]):
+                a_ = gbox.transform
+                facts["geotags_line"] = "c15 geotags " + ";".join(frac_s(float(v)) for v in (a_.a, a_.b, a_.c, a_.d, a_.e, a_.f))
+                facts["geotags"] = geotags_s(pg.tags)
             ovs = [f.overviews(i + 1) for i in range(f.count)]
             n_ov = len(ovs[0])
             if any(len(o) != n_ov for o in ovs):
@@ -593,9 +627,11 @@ def one_case(cfg, workdir, tag, shared=None):
         else:
             levels_req = None if ovr_mode == "default" else ([] if ovr_mode == "none" else cfg["overview_levels"])
             facts["levels_line"] = f"c15 levels {opt_s(levels_req, list_s)} {w} {h}"
+            facts["alevels_line"] = f"c15 alevels {opt_s(levels_req, list_s)} {list_s(pix.shape)} {h} {w}"
             expect = levels_req if levels_req is not None else ([] if min(w, h) < 512 else [2, 4, 8, 16, 32])
             want_sizes = [(-(-h // l), -(-w // l)) for l in expect]
             # GDAL drops nothing and adds nothing: exactly the requested levels, judged by size
+            facts["alevels"] = list_s(expect) if ov_sizes == want_sizes else f"sizes{ov_sizes}"
             if ov_sizes != want_sizes:
                 fails.append(("overview-sizes", f"file {ov_sizes}, requested levels {expect} → {want_sizes}"))
             else:
@@ -652,6 +688,12 @@ def run_case(R: Run, cfg, workdir, tag, shared=None):
         R.corr(facts["plan_line"], lambda: facts["plan"], sig=sig + "|plan")
     if "opts" in facts:
         R.corr(facts["opts_line"], lambda: facts["opts"], sig=sig + "|blocks")
+    if "nodata_line" in facts:
+        R.corr(facts["nodata_line"], lambda: facts["nodata"], sig="nodata|" + facts["nodata_line"].split(" ")[2])
+    if "geotags_line" in facts:
+        R.corr(facts["geotags_line"], lambda: facts["geotags"], sig="geotags|" + facts["geotags"].split("=")[0])
+    if "alevels" in facts:
+        R.corr(facts["alevels_line"], lambda: facts["alevels"], sig="alevels|" + cfg["layout"])
     if "levels_line" in facts:
         # model's level list → its length must equal the number of overviews found in the file
         model = run_driver("C15", [facts["levels_line"]])[0]
@@ -796,6 +838,7 @@ def run(R: Run):
 
                 R.corr(f"c15 plan F {bool_s(exists)} {bool_s(ow)}", f, sig=f"plan|exists={exists}|overwrite={ow}")
         for c in [True, False, "zstd", "lzw", "deflate", {"compress": "lzw"}, {"compress": "zstd", "zstd_level": 3}, {}]:
+            R.corr(f"c15 ncompfresh {comp_s(c)}", lambda: bool_s(RIO._norm_compression_opts(c) is not c), sig="ncomp|fresh")  # pylint: disable=protected-access
             R.corr(f"c15 ncomp {comp_s(c)}",
                    lambda: list_s([f"{k}={v}" for k, v in RIO._norm_compression_opts(c).items()]), sig="ncomp")  # pylint: disable=protected-access
 
